@@ -105,7 +105,7 @@ def helper_args(helpers):
 def order_key(v):
     a = v.get("args") or []
     try:
-        n = {"short": 0, "natural": 0, "max": 10 ** 6, "first": 0, "middle": 1, "last-dir": 2, "file": 3}.get(a[3])
+        n = {"short": 0, "natural": 0, "max": 10 ** 6, "first": 0, "middle": 1, "last-dir": 2, "file": 3, "states": 0}.get(a[3])
         return (v["sig"], a[1], int(a[2]), int(a[3]) if n is None else n)
     except Exception:
         return (v["sig"], " ".join(a), 0, 0)
@@ -141,8 +141,8 @@ def run(ctx):
     ctx.samples = []
     esamples = sorted(v for v in ctx.samples if v.startswith("[endianness configuration"))[:3]
     ctx.samples = []
-    for g in "ABCD":
-        ctx.samples += [v for v in allsamples if v.startswith("[grid %s," % g)][:2 if g == "A" else 3]
+    for g in "ABCDE":
+        ctx.samples += [v for v in allsamples if v.startswith("[grid %s," % g)][:2]
     ctx.samples += esamples[:12 - len(ctx.samples)]
 
     ctx.stat("helper_builds", len(helpers))
@@ -159,6 +159,10 @@ def run(ctx):
         "trailing dot(s) or blank, leading blank, single characters incl. blank, '-', backslash, '~', 0xff, leading '-', %% $ * ? quotes newline tab, only "
         "non-ASCII bytes) x slot {program name, its directory, a directory higher up%s} x %s x invocation %s. "
         "Grid D = 3..6-byte names with ONE 255-byte name as {first, middle, last directory, program name} x depth %s x flavour %s x invocation %s. "
+        "Grid E = process state left behind by earlier calls {fresh; errno assigned 0, ENOENT, EINTR, ERANGE, ENAMETOOLONG, EINVAL, ENOMEM, EACCES, ELOOP; the same eight "
+        "non-zero values left by a really failing system call; executable_path() already called twice (results must be identical); cwd = / ; cwd = a deleted "
+        "directory; umask 0777; stdin closed} (23 states, entered immediately before each call) x install path %s x invocation %s; oracle unchanged, nothing is "
+        "required of errno afterwards. "
         "The requested length is spread evenly over the depth+1 names (each 1..255 bytes); (depth, length) cells that no such split reaches are counted in "
         "cells_not_creatable / cases_not_creatable and are not part of the space. "
         "endianness() is in addition decided per BUILD CONFIGURATION (endian_probe.cpp, one translation unit each): what is seen before xtl/xplatform.hpp "
@@ -167,12 +171,13 @@ def run(ctx):
         "{c++14, c++17} x {-O0, -O2}, same in both tiers; each must report the byte layout of uint16/32/64 seen through memcpy (which must agree with "
         "__BYTE_ORDER__); every such configuration except 'nothing' counts as one distinct non-trivial case. "
         "distinct_nontrivial (paths) = distinct (install path below the root, invocation) pairs that are NOT of the kind the test-suite already runs, i.e. excluding "
-        "plain-ASCII paths shorter than 256 bytes started directly or as ./name; the second helper build does not add to it"
+        "plain-ASCII paths shorter than 256 bytes started directly or as ./name; the second helper build does not add to it; in grid E the prior state is part of the case (every state but 'fresh' is non-trivial)"
         % ((", symlink to a symlink to the file" if thorough else "", [h[0] for h in helpers]) +
            ((", all three", "total length {natural (depth 4 between opt/local/app/bin/prog), 1023, 1024, 2048, 4095 (depth 17, plain padding)}", "as grid A",
-             "{3,4,8,17,40,100}", "all 6", "as grid A") if thorough else
+             "{3,4,8,17,40,100}", "all 6", "as grid A",
+             "{short depth 2, one 255-byte name among short ones, total 1024 at depth 8, total 4095 at depth 40}", "{direct, relative, symlink to the file}") if thorough else
             ("", "natural length (depth 4 between opt/local/app/bin/prog)", "{direct, symlink to the file}", "{3,8}", "{plain, spaces, highbytes}",
-             "{direct, symlink to the file}"))))
+             "{direct, symlink to the file}", "{short depth 2, one 255-byte name among short ones, total 1024 at depth 8}", "{direct}"))))
     ctx.assumptions += [
         "endianness configurations only use macro sets that real platforms define consistently with a little-endian target (both constants + the selector); a lone 'this target is big endian' flag (__BIG_ENDIAN__, __ARMEB__, ...) is never defined: that would misdescribe the target and is out of scope",
         "the oracle is the path the driver created (canonical scratch root + the names it generated); it is never read back from the program under test",
